@@ -72,6 +72,53 @@ fn setopt(b: &mut MMTKBuilder, k: &str, v: &str) {
     }
 }
 
+pub fn new_world(spec: &RunSpec, plan: PlanInfo, nmut: usize) -> World {
+    World {
+        spec: spec.clone(),
+        plan,
+        nmut,
+        objs: BTreeMap::new(),
+        lroots: vec![[0u64; NROOTS]; MAX_MUT],
+        groots: [0u64; NGLOBAL],
+        next_id: 1,
+        occupied: BTreeMap::new(),
+        pause: Default::default(),
+        pauses_done: 0,
+        reclaiming_pauses: 0,
+        counters: BTreeMap::new(),
+        refs: BTreeMap::new(),
+        fin_registered: BTreeMap::new(),
+        fin_popped: BTreeMap::new(),
+        fin_ready: BTreeMap::new(),
+        fin_unreachable_seen: BTreeSet::new(),
+        probe_requested: false,
+        block_counts: [0; MAX_MUT],
+        fork_epoch: 0,
+        alloc_slow_iters: BTreeMap::new(),
+        acquire_fails: BTreeMap::new(),
+        used_after_gc: Vec::new(),
+        ephemerons: Vec::new(),
+        satb_keep: BTreeSet::new(),
+        satb_active: false,
+        satb_new: BTreeSet::new(),
+        immortal_dead: BTreeSet::new(),
+        oom_events: Vec::new(),
+        hist: Default::default(),
+        blocked_for_gc: [false; MAX_MUT],
+        gc_requests: BTreeMap::new(),
+        recent: VecDeque::new(),
+        injected_pending: BTreeMap::new(),
+        injected_next: 0,
+        workers_exited: Vec::new(),
+        workers_spawned: Vec::new(),
+        sched: Default::default(),
+        last_gc_info: Default::default(),
+        alloc_count: 0,
+        alloc_bytes: 0,
+        end_phase: false,
+    }
+}
+
 pub fn run(spec: RunSpec) -> ! {
     std::panic::set_hook(Box::new(panic_hook));
     if spec.variant != variant_name() {
@@ -84,6 +131,9 @@ pub fn run(spec: RunSpec) -> ! {
     }
     let nmut = spec.programs.len().clamp(1, MAX_MUT);
     simrt::init(spec.sched.clone(), &world::OBS);
+    if spec.cfg.plan == "comp" {
+        crate::comp::run(spec);
+    }
 
     // ---- build MMTk
     let cfg = spec.cfg.clone();
@@ -155,50 +205,7 @@ pub fn run(spec: RunSpec) -> ! {
             "Immix" | "StickyImmix" | "ConcurrentImmix" | "MarkSweep" | "PageProtect"
         ),
     };
-    let w = World {
-        spec: spec.clone(),
-        plan,
-        nmut,
-        objs: BTreeMap::new(),
-        lroots: vec![[0u64; NROOTS]; MAX_MUT],
-        groots: [0u64; NGLOBAL],
-        next_id: 1,
-        occupied: BTreeMap::new(),
-        pause: Default::default(),
-        pauses_done: 0,
-        reclaiming_pauses: 0,
-        counters: BTreeMap::new(),
-        refs: BTreeMap::new(),
-        fin_registered: BTreeMap::new(),
-        fin_popped: BTreeMap::new(),
-        fin_ready: BTreeMap::new(),
-        fin_unreachable_seen: BTreeSet::new(),
-        probe_requested: false,
-        block_counts: [0; MAX_MUT],
-        fork_epoch: 0,
-        alloc_slow_iters: BTreeMap::new(),
-        acquire_fails: BTreeMap::new(),
-        used_after_gc: Vec::new(),
-        ephemerons: Vec::new(),
-        satb_keep: BTreeSet::new(),
-        satb_active: false,
-        satb_new: BTreeSet::new(),
-        immortal_dead: BTreeSet::new(),
-        oom_events: Vec::new(),
-        hist: Default::default(),
-        blocked_for_gc: [false; MAX_MUT],
-        gc_requests: BTreeMap::new(),
-        recent: VecDeque::new(),
-        injected_pending: BTreeMap::new(),
-        injected_next: 0,
-        workers_exited: Vec::new(),
-        workers_spawned: Vec::new(),
-        sched: Default::default(),
-        last_gc_info: Default::default(),
-        alloc_count: 0,
-        alloc_bytes: 0,
-        end_phase: false,
-    };
+    let w = new_world(&spec, plan, nmut);
     world::install_world(w);
     with_world(|w| w.sched.workers = cfg.workers);
 
